@@ -122,36 +122,52 @@ def queries(root):
     return res
 
 
-def mutate_and_compare(root, warm_first=True):
-    """the copy must be a LIVE graph: with neighbor caching on, warm every memo, edit the links through the public API
-    (retarget an edge, unlink a pair, add an edge), and ask again - the cached answers must equal the uncached ones.
-    Returns None or a description of the first stale answer."""
+def _edit(root):
+    """edit the links of a loaded copy through the public API (retarget an edge, unlink a pair, add an edge); returns the
+    outcome of each edit (None or the exception's type name: an edit may legitimately raise, e.g. unlink() meets a link that lost
+    an end - but then it raises whatever the caching flag says)"""
     from edgegraph.structure import Vertex, TwoEndedLink
     from edgegraph.builder import explicit
     seen, order = canon_walk(root)
     verts = [o for o in order if isinstance(o, Vertex)]
     links = [o for o in order if isinstance(o, TwoEndedLink) and len(o.vertices) == 2 and None not in o.vertices]
+    outcomes = []
+
+    def attempt(fn):
+        try:
+            fn()
+            outcomes.append(None)
+        except Exception as e:  # noqa: BLE001
+            outcomes.append(type(e).__name__)
+    if links:
+        e = links[0]
+        attempt(lambda: setattr(e, "v2", e.v1))      # retarget: the edge becomes a self-loop
+    if len(links) > 1:
+        a, b = links[1].vertices
+        attempt(lambda: explicit.unlink(a, b))
+    if len(verts) > 1:
+        attempt(lambda: explicit.link_directed(verts[0], verts[-1]))
+    return outcomes
+
+
+def mutate_and_compare(root, warm_first=True, twin=None):
+    """the copy must be a LIVE graph: with neighbor caching on, (warm every memo,) edit the links through the public API and
+    ask again - the cached answers must equal the uncached ones; when `twin` (another load of the same bytes) is given, the same
+    edits are made on it with caching off and must end the same way.  Returns None or a description of the first difference."""
+    from edgegraph.structure import Vertex
     flag = Vertex.NEIGHBOR_CACHING
     Vertex.NEIGHBOR_CACHING = True
     try:
         if warm_first:
             queries(root)                              # warm; otherwise the memos are exactly what the pickle carried
-        def attempt(fn):
-            try:                       # an edit may legitimately raise (e.g. unlink() meets a link that lost an end): what matters
-                fn()                   # is that cached and uncached answers agree afterwards
-            except Exception:  # noqa: BLE001
-                pass
-        if links:
-            e = links[0]
-            attempt(lambda: setattr(e, "v2", e.v1))      # retarget: the edge becomes a self-loop
-        if len(links) > 1:
-            a, b = links[1].vertices
-            attempt(lambda: explicit.unlink(a, b))
-        if len(verts) > 1:
-            attempt(lambda: explicit.link_directed(verts[0], verts[-1]))
+        done = _edit(root)
         cached = queries(root)
         Vertex.NEIGHBOR_CACHING = False
         truth = queries(root)
+        if twin is not None:
+            plain = _edit(twin)
+            if plain != done:
+                return f"editing the loaded copy ends {done} with caching on and {plain} with caching off"
     finally:
         Vertex.NEIGHBOR_CACHING = flag
     for k in truth:
@@ -174,7 +190,8 @@ def main():
     # first of all (the statistics table of this process knows no uid yet): a second copy, edited BEFORE anything is asked of
     # it here - its memos are exactly what the pickle carried
     root2 = dill.loads(data) if loader == "dill" else pickle.loads(data)
-    stale = mutate_and_compare(root2, warm_first=False)
+    root3 = dill.loads(data) if loader == "dill" else pickle.loads(data)
+    stale = mutate_and_compare(root2, warm_first=False, twin=root3)
     out = {"snapshot": snapshot(root), "queries": queries(root), "stale": stale}
     print(json.dumps(out))
 
